@@ -379,6 +379,17 @@ pub fn to_pieces(e: &Encoded) -> Pieces {
     Pieces { header: e.bytes[..128].to_vec(), frames, trailing: e.bytes[e.last_frame_end()..].to_vec() }
 }
 
+/// Pieces of an arbitrary (scanned, complete) file.
+pub fn to_pieces_raw(b: &[u8], sc: &scan::Scan) -> Option<Pieces> {
+    let mut frames = vec![];
+    for (fi, (fs, _)) in sc.frames.iter().enumerate() {
+        let hdr = b.get(*fs..*fs + 16)?.to_vec();
+        let chunks = sc.chunks.iter().filter(|c| c.frame == fi as u32).map(|c| b[c.start..c.end].to_vec()).collect();
+        frames.push((hdr, chunks));
+    }
+    Some(Pieces { header: b.get(..128)?.to_vec(), frames, trailing: b[sc.last_frame_end..].to_vec() })
+}
+
 pub fn assemble(p: &Pieces, fixup: bool) -> Vec<u8> {
     let mut out = p.header.clone();
     if fixup {
@@ -845,6 +856,24 @@ pub fn stress_shapes(thorough: bool) -> Vec<(String, Vec<u8>)> {
         let chunks = if layer == 0 { vec![simple_layer(0, LayerKind::Image, 1), cel.clone(), cel] } else { vec![simple_layer(0, LayerKind::Image, 1), cel] };
         b.extend(frame_bytes(&chunks, 1));
         v.push((format!("bomb-cel-{}-refused-{}", name, if layer == 0 { "duplicate" } else { "undefined-layer" }), b));
+    }
+    // many small records that each declare extreme values (per-item amplification): tags spanning every frame number,
+    // in each direction, in a one-frame sprite
+    for dir in [0u8, 1, 2] {
+        let tags: Vec<Tag> = (0..3000).map(|i| Tag { from: 0, to: 65535, dir, repeat: 65535, name: format!("t{}", i) }).collect();
+        let mut b = header_bytes(1, 2, 2, 32);
+        b.extend(frame_bytes(&[chunk(tags_chunk(&tags, &mut None))], 65535));
+        v.push((format!("tags-x3000-full-range-dir{}", dir), b));
+    }
+    // indexed-colour deflate bombs: every pixel an index the palette lacks (refused; the refusal must not cost a
+    // multiple of the decoded size), and the same with a valid index
+    for (name, index) in [("invalid", 7u8), ("valid", 1u8)] {
+        let (wd, ht) = (8192u16, 4096u16);
+        let px = vec![index; wd as usize * ht as usize];
+        let mut b = header_bytes(1, 4, 4, 8);
+        let pal = chunk(palette_chunk(&NewPalette { first: 0, entries: vec![PalEntry { rgba: [0, 0, 0, 255], name: None }, PalEntry { rgba: [255, 255, 255, 255], name: None }] }, &mut None));
+        b.extend(frame_bytes(&[pal, simple_layer(0, LayerKind::Image, 1), image_cel(0, wd, ht, px, Some(9))], 1));
+        v.push((format!("bomb-cel-indexed-{}-index", name), b));
     }
     // tilemap bombs with 8 and 16 bits per tile (refused today; a reader that accepts them must not turn each
     // inflated byte into a much larger in-memory tile)
@@ -1320,12 +1349,41 @@ pub fn campaign(run: &mut Run, focus: Focus) {
     // chunk ends early but nothing else in the file is inconsistent
     {
         let mut work: Vec<(usize, usize, usize)> = vec![];
-        let scans: Vec<scan::Scan> = bases.iter().map(|(_, b, _)| scan::scan(b)).collect();
-        for (bi, (bname, _, _)) in bases.iter().enumerate().take(if thorough { 300 } else { 40 }) {
-            if !bname.starts_with("generated-") || !scans[bi].complete {
+        // the generated bases, plus a few of them with an ICC colour-profile chunk (64 bytes of profile data) put in
+        // front of the first frame's chunks - refused today, but a chunk kind with an inner length field
+        let mut sb: Vec<(String, Vec<u8>)> = bases.iter().filter(|(n, _, _)| n.starts_with("generated-")).take(if thorough { 300 } else { 40 }).map(|(n, b, _)| (n.clone(), b.clone())).collect();
+        let icc: Vec<u8> = {
+            let mut w = W::new(0x2007);
+            w.u16(Kind::Enum, "cp_type", 2);
+            w.u16(Kind::Flags, "cp_flags", 0);
+            w.u32(Kind::Value, "cp_gamma", 0);
+            w.reserved(8, &mut None);
+            w.u32(Kind::Size, "cp_icc_len", 64);
+            w.bytes(Kind::Payload, "cp_icc", &[0x5A; 64]);
+            chunk(w)
+        };
+        let nicc = if thorough { 24 } else { 6 };
+        let with_icc: Vec<(String, Vec<u8>)> = sb.iter().take(nicc).filter_map(|(n, b)| {
+            let sc = scan::scan(b);
+            if !sc.complete || sc.frames.is_empty() {
+                return None;
+            }
+            let mut p = to_pieces_raw(b, &sc)?;
+            p.frames[0].1.insert(0, icc.clone());
+            Some((format!("{}+icc", n), assemble(&p, true)))
+        }).collect();
+        sb.extend(with_icc);
+        let bases = &sb;
+        let scans: Vec<scan::Scan> = bases.iter().map(|(_, b)| scan::scan(b)).collect();
+        for (bi, (bname, _)) in bases.iter().enumerate() {
+            if !scans[bi].complete {
                 continue;
             }
             for (ci, c) in scans[bi].chunks.iter().enumerate() {
+                // in the +icc variants only the inserted chunk is swept (the rest was swept in the plain base)
+                if bname.ends_with("+icc") && c.ctype != 0x2007 {
+                    continue;
+                }
                 let body = c.end - c.start - 6;
                 for l in 0..body {
                     if l < 96 || l % (1 + body / 16) == 0 || l + 8 >= body {
@@ -1340,7 +1398,7 @@ pub fn campaign(run: &mut Run, focus: Focus) {
             || (Stats::default(), Vec::<Violation>::new()),
             |acc, i| {
                 let (bi, ci, l) = work[i as usize];
-                let (bname, bytes, _) = &bases[bi];
+                let (bname, bytes) = &bases[bi];
                 let c = &scans[bi].chunks[ci];
                 let cut = (c.end - c.start - 6) - l;
                 let mut b = Vec::with_capacity(bytes.len());
